@@ -217,6 +217,17 @@ class ASTCFG(dict[str, WritableASTBlock]):
                             b.jump_targets[0] = it
                         if b.jump_targets[1] == name:
                             b.jump_targets[1] = it
+        # After pruning, both branches of a block may lead to the same block.
+        # The test then decides nothing: it is kept as an expression statement
+        # and the block falls through.
+        for b in self.values():
+            if (
+                len(b.jump_targets) == 2
+                and b.jump_targets[0] == b.jump_targets[1]
+            ):
+                b.jump_targets = b.jump_targets[:1]
+                if isinstance(b.instructions[-1], ast.expr):
+                    b.instructions[-1] = ast.Expr(b.instructions[-1])
         self.empty = empty
         return empty
 
